@@ -34,11 +34,14 @@ Definition check_codes (c : case) : list Z :=
   let faces := c_faces c in let edges := c_edges c in
   let r := rebuild faces edges (c_cut c) in
   (* input sanity (what the theorems assume of the input tables) *)
-  mk 1 (triangles_b faces && oriented_b faces && faces_connected_b faces && edges_table_ok_b faces edges) ++
+  mk 1 (tri_ok_b faces && oriented_b faces && faces_connected_b faces && edges_table_ok_b faces edges
+        && table_ok_b faces edges && primal_connected_b edges
+        && closed_set_b edges (fun _ => false) (boundary_edges faces edges)) ++
   (* tables computed by the model = tables of the real mesh *)
   mk 2 (zl_eqb (interior_edges faces edges) (c_interior c) && zl_eqb (boundary_edges faces edges) (c_boundary c)) ++
   (* the dual tree of the implementation is a spanning tree of the dual graph (certificate: ranks) *)
   mk 3 (forest_cert_b faces edges (c_evisited c) (rank_of (c_rank c)) && dual_spanning_b faces edges (c_evisited c)
+        && dual_spanning_df_b faces edges (c_evisited c)
         && subsetZ (c_evisited c) (c_interior c)) ++
   (* complement *)
   mk 4 (zl_eqb (cut0 edges (c_evisited c)) (c_cut0 c)) ++
